@@ -112,10 +112,14 @@ def decode_payload(cmd):
     return text, probs
 
 
+LAST = {"kind": None}
+
+
 def check_request(remote, ir_set, params, req, E, res):
     on, mode, temp, fan, swing, prev = req
     case = {"kind": "select", "params": params, "req": list(req)}
     exp = IR.select(ir_set, on, mode, temp, fan, swing, prev)
+    LAST["kind"] = exp[0]
     try:
         cmd = remote.build_command(E["state"][on], E["mode"][mode], temp, E["fan"][fan], E["swing"][swing], E["state"][prev])
         raised = None
@@ -309,11 +313,16 @@ def run_job(job):
         remote, ir_set = build(params)
         res.case(("caps", params), nontrivial=check_caps(remote, ir_set, params, res))
         pk = repr(sorted(params.items()))
-        for req in reqs:
+        prev_ok = True
+        for ri, req in enumerate(reqs):
             ok = check_request(remote, ir_set, params, req, E, res)
             res.evals += 1
             if ok is not None:
                 res.kcount += 1  # (params, req) pairs are distinct by construction
+            if (LAST["kind"] != "key" and ri % 5 == 0) or ri % 23 == 0:
+                # asked again right away (after a refusal, or every 23rd request): the answer is the same
+                check_request(remote, ir_set, params, req, E, res)
+                res.evals += 1
         if len(res.samples) < 1:
             res.sample({"set": params, "request": ["on", "cool", 31, "high", "swing on", "previous off"], "expected_key": IR.select(ir_set, True, "cool", 31, "high", True, False)})
     return res
